@@ -53,6 +53,9 @@ pub struct St {
     pub role: u8,
     pub name: u8,
     pub binding: u8,
+    /// spelling variant of the with / for binding forms (several items, tuple targets)
+    #[serde(default)]
+    pub variant: u8,
 }
 
 #[derive(Clone, Debug, Serialize, Deserialize, PartialEq)]
@@ -74,7 +77,7 @@ pub struct Spec {
 }
 
 pub fn spec() -> impl Strategy<Value = Spec> {
-    let st = (0u8..24, prop_oneof![3 => 0u8..2, 2 => Just(2u8), 1 => Just(3u8), 1 => Just(4u8), 1 => Just(5u8), 1 => Just(6u8)], prop_oneof![6 => Just(0u8), 7 => 1u8..16]).prop_map(|(role, name, binding)| St { role, name, binding });
+    let st = (0u8..24, prop_oneof![3 => 0u8..2, 2 => Just(2u8), 1 => Just(3u8), 1 => Just(4u8), 1 => Just(5u8), 1 => Just(6u8)], prop_oneof![6 => Just(0u8), 7 => 1u8..16], 0u8..4).prop_map(|(role, name, binding, variant)| St { role, name, binding, variant });
     (
         (0u8..3, prop_oneof![3 => Just(false), 1 => Just(true)], prop_oneof![4 => Just(false), 1 => Just(true)], vec(0u8..3, 0..=3), any::<u8>(), any::<u8>()),
         (prop_oneof![1 => Just(false), 1 => Just(true)], 0u8..3, prop_oneof![3 => Just(false), 1 => Just(true)], vec(st, 1..=4), 0u8..3),
@@ -207,11 +210,20 @@ pub fn render(s: &Spec) -> Rendered17 {
         match b {
             1 => lines.push(format!("{}{} = make()", ind, name)),
             3 => {
-                lines.push(format!("{}for {} in items():", ind, name));
+                if st.variant % 2 == 0 {
+                    lines.push(format!("{}for {} in items():", ind, name));
+                } else {
+                    lines.push(format!("{}for first_item, {} in pairs():", ind, name));
+                }
                 lines.push(format!("{}    pass", ind));
             }
             4 => {
-                lines.push(format!("{}with ctx() as {}:", ind, name));
+                match st.variant % 4 {
+                    0 => lines.push(format!("{}with ctx() as {}:", ind, name)),
+                    1 => lines.push(format!("{}with other_ctx(), ctx() as {}:", ind, name)),
+                    2 => lines.push(format!("{}with ctx() as first_item, other_ctx() as {}:", ind, name)),
+                    _ => lines.push(format!("{}with ctx() as (first_item, {}):", ind, name)),
+                }
                 lines.push(format!("{}    pass", ind));
             }
             5 => lines.push(format!("{}check(({} := make()))", ind, name)),
@@ -584,7 +596,7 @@ pub fn check_server(ctx: &Ctx, s: &Spec, info: &mut CaseInfo) -> Outcome {
 }
 
 pub fn run(ctx: &Ctx) {
-    ctx.run_prop("lib", ctx.tier.pick(30_000, 1_000_000), 16, spec, |s, info| check_lib(s, info));
+    ctx.run_prop("lib", ctx.tier.pick(80_000, 2_000_000), 16, spec, |s, info| check_lib(s, info));
     ctx.run_prop_shrink("server", ctx.tier.pick(400, 12_000), 8, 300, spec, |s, info| check_server(ctx, s, info));
 }
 
